@@ -406,6 +406,9 @@ func (s *SliceV) elemAt(i *Term) Val {
 	}
 	switch s.Elem.K {
 	case "slice":
+		if s.Arr == nil {
+			panic(unsupported("3-level slice used without a shape clause"))
+		}
 		inner := &SliceV{Elem: s.Elem.Elem, Len: Select(s.Lens, i), Arr: Select(s.Arr, i), Tag: 0}
 		if s.Elem.Fixed {
 			inner.Len = IntLit(int64(s.Elem.N))
